@@ -16,6 +16,9 @@ pub(super) struct State {
     last_send_access: Option<Access>,
     /// Last access that was a receive operation.
     last_recv_access: Option<Access>,
+    /// Last time the receiver checked whether the channel is empty
+    /// (`try_recv`). The outcome of the check depends on the sends.
+    last_empty_access: Option<Access>,
 
     /// A synchronization point for synchronizing the sending threads and the
     /// channel.
@@ -47,6 +50,8 @@ pub(super) enum Action {
     MsgSend,
     /// Receive a message
     MsgRecv,
+    /// Check whether a message is available
+    MsgEmpty,
 }
 
 impl Channel {
@@ -56,6 +61,7 @@ impl Channel {
                 msg_cnt: 0,
                 last_send_access: None,
                 last_recv_access: None,
+                last_empty_access: None,
                 sender_synchronize: Synchronize::new(),
                 receiver_synchronize: VecDeque::new(),
                 created: location,
@@ -133,6 +139,15 @@ impl Channel {
     }
 
     /// Returns `true` if the channel is currently empty
+    /// Checks, at a scheduling point of its own, whether the channel is empty.
+    ///
+    /// Used by `try_recv`: whether it finds a message depends on how it is
+    /// ordered with the sends, so both orders have to be explored.
+    pub(crate) fn check_empty(&self, location: Location) -> bool {
+        self.state.branch_action(Action::MsgEmpty, location);
+        self.is_empty()
+    }
+
     pub(crate) fn is_empty(&self) -> bool {
         super::execution(|execution| self.get_state(&mut execution.objects).msg_cnt == 0)
     }
@@ -166,6 +181,15 @@ impl State {
         match action {
             Action::MsgSend => self.last_send_access.as_ref(),
             Action::MsgRecv => self.last_recv_access.as_ref(),
+            Action::MsgEmpty => self.last_send_access.as_ref(),
+        }
+    }
+
+    /// Returns the accesses that `action` additionally depends on
+    pub(super) fn additional_dependent_accesses(&self, action: Action) -> &[Option<Access>] {
+        match action {
+            Action::MsgSend => std::slice::from_ref(&self.last_empty_access),
+            _ => &[],
         }
     }
 
@@ -173,6 +197,7 @@ impl State {
         match action {
             Action::MsgSend => Access::set_or_create(&mut self.last_send_access, path_id, version),
             Action::MsgRecv => Access::set_or_create(&mut self.last_recv_access, path_id, version),
+            Action::MsgEmpty => Access::set_or_create(&mut self.last_empty_access, path_id, version),
         }
     }
 }
